@@ -20,8 +20,8 @@
     Decoders are values of [prog]: trees whose only access to the stream is a ReadFull
     site ([Rd], tagged with the source location so that the pre-fix single-Read code can
     be modelled by a [read_kind] table) or the CopyN of PackfileReader.ReadObject ([Cp]),
-    and which meter their allocations ([Alloc]).  [run] interprets a prog over a chunked
-    reader, [run_pure] over the remaining byte string; proofs/Reader_proofs.v shows that
+    and which meter their allocations ([Alloc]).  [exec] interprets a prog over a chunked
+    reader, [exec_pure] over the remaining byte string; proofs/Reader_proofs.v shows that
     with every site [Full] the former factors through the latter. *)
 From Coq Require Import String.
 From Coq Require Import List Lia Arith.
@@ -231,14 +231,14 @@ Definition do_copy (k : read_kind) (n : N) (r : reader) : bytes * ioerr * reader
       (d, match e with Some c => Some c | None => if N.of_nat (length d) <? n then Some CEof else None end, r')
   end.
 
-Fixpoint run {A} (kd : site -> read_kind) (p : prog A) (r : reader) (m : N) : res A * reader * N :=
+Fixpoint exec {A} (kd : site -> read_kind) (p : prog A) (r : reader) (m : N) : res A * reader * N :=
   match p with
   | Ret a => (Ok a, r, m)
   | Fail e => (Err e, r, m)
   | Crash => (Panic, r, m)
-  | Rd s n k => let '(d, e, r') := do_read (kd s) n r in run kd (k d e) r' m
-  | Cp s n k => let '(d, e, r') := do_copy (kd s) n r in run kd (k d e) r' m
-  | Alloc c k => run kd k r (m + c)
+  | Rd s n k => let '(d, e, r') := do_read (kd s) n r in exec kd (k d e) r' m
+  | Cp s n k => let '(d, e, r') := do_copy (kd s) n r in exec kd (k d e) r' m
+  | Alloc c k => exec kd k r (m + c)
   end.
 
 (** the same over the remaining byte string *)
@@ -250,14 +250,14 @@ Definition pure_copy_n (n : N) (s : bytes) : bytes * ioerr * bytes :=
   if n <=? N.of_nat (length s) then (firstn (N.to_nat n) s, None, skipn (N.to_nat n) s)
   else (s, Some CEof, []).
 
-Fixpoint run_pure {A} (p : prog A) (s : bytes) (m : N) : res A * bytes * N :=
+Fixpoint exec_pure {A} (p : prog A) (s : bytes) (m : N) : res A * bytes * N :=
   match p with
   | Ret a => (Ok a, s, m)
   | Fail e => (Err e, s, m)
   | Crash => (Panic, s, m)
-  | Rd _ n k => let '(d, e, s') := pure_read_full n s in run_pure (k d e) s' m
-  | Cp _ n k => let '(d, e, s') := pure_copy_n n s in run_pure (k d e) s' m
-  | Alloc c k => run_pure k s (m + c)
+  | Rd _ n k => let '(d, e, s') := pure_read_full n s in exec_pure (k d e) s' m
+  | Cp _ n k => let '(d, e, s') := pure_copy_n n s in exec_pure (k d e) s' m
+  | Alloc c k => exec_pure k s (m + c)
   end.
 
 (** Loop combinators used by the decoder models.
